@@ -217,11 +217,12 @@ type sfGroupScenario struct {
 	Name  string
 	Keys  [][]string // per thread, the keys of its successive Do calls
 	Bound int
+	Fine  bool // statement-granularity scheduling points inside singleflight.go
 }
 
 func sfGroupExecute(x *explore.Exec, sc sfGroupScenario) (*sfTrace, *sched.Sched) {
 	tr := &sfTrace{}
-	s := sched.Run(x, nil, func(s *sched.Sched) {
+	s := sched.Run(x, func(s *sched.Sched) { s.FineGrained = sc.Fine }, func(s *sched.Sched) {
 		g := &singleflight.Group{}
 		nexec := 0
 		for t, keys := range sc.Keys {
@@ -460,6 +461,7 @@ type sfWrapScenario struct {
 	Ops   [][]sfOp
 	Grace bool
 	Bound int
+	Fine  bool
 }
 
 func newSession(o sfOp, thread int) *sessions.SessionState {
@@ -479,7 +481,7 @@ func newSession(o sfOp, thread int) *sessions.SessionState {
 
 func sfWrapExecute(x *explore.Exec, sc sfWrapScenario) (*sfTrace, *sched.Sched) {
 	tr := &sfTrace{}
-	s := sched.Run(x, nil, func(s *sched.Sched) {
+	s := sched.Run(x, func(s *sched.Sched) { s.FineGrained = sc.Fine }, func(s *sched.Sched) {
 		inner := &fakeInner{s: s, x: x, tr: tr, grace: sc.Grace}
 		var pw *proxyp.SingleFlightProvider
 		var aw *authp.SingleFlightProvider
@@ -553,6 +555,8 @@ func sfScenarios(c *fw.Ctx) ([]sfGroupScenario, []sfWrapScenario) {
 		{Name: "group/2-keys", Keys: [][]string{{"k1"}, {"k1"}, {"k2"}}, Bound: b3},
 		{Name: "group/again-after-complete", Keys: [][]string{{"k1", "k1"}, {"k1"}}, Bound: b3},
 		{Name: "group/again-3", Keys: [][]string{{"k1", "k1"}, {"k1", "k2"}, {"k1"}}, Bound: b2},
+		{Name: "group/2-same-key-statement-granularity", Keys: [][]string{{"k1", "k1"}, {"k1"}}, Bound: 2, Fine: true},
+		{Name: "group/3-same-key-statement-granularity", Keys: [][]string{{"k1"}, {"k1"}, {"k1"}}, Bound: 2, Fine: true},
 	}
 	v := func(tok string) sfOp { return sfOp{Endpoint: "ValidateSessionState", Token: tok} }
 	r := func(ep, tok string) sfOp { return sfOp{Endpoint: ep, Token: tok} }
@@ -570,6 +574,8 @@ func sfScenarios(c *fw.Ctx) ([]sfGroupScenario, []sfWrapScenario) {
 		{Name: "auth/revoke-validate-same-token", Side: "auth", Ops: [][]sfOp{{r("Revoke", "T")}, {v("T")}, {r("Revoke", "T")}}, Bound: b3},
 		{Name: "auth/refresh-access-token", Side: "auth", Ops: [][]sfOp{{r("RefreshAccessToken", "R")}, {r("RefreshAccessToken", "R")}, {r("RefreshSessionIfNeeded", "R")}}, Bound: b3},
 		{Name: "auth/membership", Side: "auth", Ops: [][]sfOp{{q("ValidateGroupMembership", "u1@e.com", "a", "b")}, {q("ValidateGroupMembership", "u1@e.com", "b", "a")}, {q("ValidateGroupMembership", "u2@e.com", "a", "b")}}, Bound: b3},
+		{Name: "proxy/validate-statement-granularity", Side: "proxy", Ops: [][]sfOp{{v("T")}, {v("T")}, {v("U")}}, Bound: 2, Fine: true},
+		{Name: "auth/revoke-validate-statement-granularity", Side: "auth", Ops: [][]sfOp{{r("Revoke", "T")}, {v("T")}, {r("Revoke", "T")}}, Bound: 2, Fine: true},
 		{Name: "auth/membership-subsets", Side: "auth", Ops: [][]sfOp{{q("ValidateGroupMembership", "u1@e.com", "a", "b")}, {q("ValidateGroupMembership", "u1@e.com", "a")}, {q("ValidateGroupMembership", "u1@e.com", "a", "b")}}, Bound: b3},
 	}
 	return groups, wraps
